@@ -99,6 +99,7 @@ def run(tier, seed, rng):
     # ---- fields that consume NO bytes at the very end of the input (a present optional string of size 0, a repeated field of count 0,
     # a sized string of size 0, Em): what they parse to must not depend on whether any byte follows; directly and inside a reference
     tgroups = []
+    complete_groups = set()
     cond = ('bin', 'Eq', ('bin', 'BAnd', ('field', 0), ('lit', 1)), ('lit', 1))
     tails = [('opt', ('leaf', ('dsized', ('field', 1), 'field', b'')), (cond, 'expr'), None),
              ('opt', ('leaf', ('dsized', ('field', 1), 'field', b'')), (cond, 'lambda'), None),
@@ -106,23 +107,42 @@ def run(tier, seed, rng):
              ('seq', ('leaf', ('int', 1, False, None, 0)), (('field', 1), 'field'), None, (cond, 'expr'), None, None),
              ('elem', ('leaf', ('dsized', ('field', 1), 'field', b''))),
              ('opt', ('leaf', ('int', 1, False, None, 0)), (cond, 'expr'), None)]
-    for ti, tail in enumerate(tails):
+    # ... and the same behind a relative move that lands BEYOND the end of the input (nothing is read there): padding that is missing
+    # after the last record, an empty string placed further on
+    moved = [((('const', 4), 'RInner', True, 'aligned'), ('em',)),
+             ((('const', 3), 'RCur', False, 'shift'), ('seq', ('leaf', ('int', 2, False, None, 0)), (('field', 1), 'field'), None, None, None, None)),
+             ((('const', 6), 'RInner', False, 'at'), ('elem', ('leaf', ('dsized', ('field', 1), 'field', b'')))),
+             ((('const', 2), 'RCur', False, 'shift'), ('opt', ('leaf', ('int', 1, False, None, 0)), (cond, 'expr'), None))]
+    for ti, tail in enumerate(tails + moved):
+        mv = None
+        if ti >= len(tails):
+            mv, tail = tail
         for gen_u in (True, False):
             table = {0: dict(end=None, align=None, sbl=None, gp=True, gu=gen_u, vec=True, ann=True,
                              fields=[{'move': None, 'body': ('elem', ('leaf', ('int', 1, False, None, 0)))},
                                      {'move': None, 'body': ('elem', ('leaf', ('int', 1, False, None, 0)))},
-                                     {'move': None, 'body': tail}]),
+                                     {'move': mv, 'body': tail}]),
                      1: dict(end=None, align=None, sbl=None, gp=True, gu=True, vec=True, ann=True,
                              fields=[{'move': None, 'body': ('elem', ('leaf', ('int', 1, False, None, 0)))}, {'move': None, 'body': ('elem', ('refpkt', 0, {}))}])}
             G = pktcases.Group(table, 300000 + len(tgroups))
             for flags in (0, 1):
                 for size in (0, 1):
                     body = bytes([flags, size]) + b'Q' * (size * (2 if tail[0] == 'seq' and tail[1][1][1] == 2 else 1) if (flags & 1 or tail[0] in ('elem',) or (tail[0] == 'seq' and tail[4] is None)) else 0)
+                    # is `body` a complete encoding?  without a move: when the tail consumes exactly what the size says; behind a move that
+                    # lands beyond the header: only when nothing at all is read there
+                    optint = tail[0] == 'opt' and tail[1][1][0] == 'int'
+                    if mv is None:
+                        complete = not optint
+                    else:
+                        complete = tail[0] == 'em' or (optint and not flags & 1) or (not optint and (size == 0 or (tail[0] == 'opt' and not flags & 1) or (tail[0] == 'seq' and tail[4] is not None and not flags & 1)))
                     for c, pre in ((0, b''), (1, b'\x09')):
                         raw = pre + body
+                        if complete:
+                            complete_groups.add((G.gid, c, raw))
                         G.add_unpack(c, raw, 0)
                         for suf in (b'Z', b'\x00\x01\x02'):
                             G.add_unpack(c, raw + suf, 0)
+                        G.add_unpack(c, raw + b'abcdefghij', 0)
                         G.add_unpack(c, b'PP' + raw + b'S', 2)
             tgroups.append(G)
     records, disagreements = pktcases.run_groups(groups + zgroups + bgroups + tgroups, 'c14')
@@ -132,7 +152,12 @@ def run(tier, seed, rng):
         if r['offset'] == 0 and (tbase is None or not (r['raw'].startswith(tbase['raw']) and r['group'] == tbase['group'] and r['c'] == tbase['c'])):
             tbase = r
             continue
-        if tbase is None or r['group'] != tbase['group'] or r['c'] != tbase['c'] or 'ok' not in tbase['outcome']:
+        if tbase is None or r['group'] != tbase['group'] or r['c'] != tbase['c']:
+            continue
+        if 'ok' not in tbase['outcome']:
+            # the base input of this family is a complete encoding: if it only parses once bytes are appended, the appended bytes decided
+            if 'ok' in r['outcome'] and r['offset'] == 0 and (tbase['group'], tbase['c'], tbase['raw']) in complete_groups:
+                tfail.append((tbase, r, dict(note='the input alone must parse exactly as it does with bytes appended')))
             continue
         want = shift_outcome(tbase['outcome'], r['offset'])
         if view(r['outcome']) != view(want):
@@ -214,7 +239,7 @@ def run(tier, seed, rng):
     for b, r, want in tfail[:20]:
         failures.append(dict(kind='oracle', sig='context-suffix-zero-tail', what='a field that consumes no bytes at the very end of the input parses differently when bytes follow (or precede) the packet',
                              classes=pktprops.class_source(tgroups, r['group']), cls=decl.cname(r['c']), raw=b['raw'].hex(), raw_with_context=r['raw'].hex(),
-                             offset=r['offset'], observed=view(r['outcome']), required=view(want)))
+                             offset=r['offset'], observed=view(r['outcome']) if 'note' not in want else view(b['outcome']), required=view(want) if 'note' not in want else want))
     dist['first_byte_move_pairs'] = sum(1 for r in brecs if r['offset'] != 0)
     for b, r, want in bfail[:20]:
         failures.append(dict(kind='oracle', sig='context-prefix-move0', what='a packet with a move landing on its first byte parses differently at offset 0 and behind a prefix',
